@@ -115,6 +115,9 @@ class Grid(col.MutableSequence):
                     len(self.column[col]) != len(other.column[col]):
                 return False
             for key in self.column[col].keys():
+                # Same number of tags, but possibly under other names
+                if key not in other.column[col]:
+                    return False
                 if not Grid._approx_check(self.column[col][key], other.column[col][key]):
                     return False
         # Check row matches
